@@ -565,13 +565,13 @@ def embeddedType : Forest :=
 def embeddedReq : NReq := { r := { ct := mimeJSON, body := .json [([112], .atom (.int 5))] } }
 
 set_option maxRecDepth 100000 in
-/-- Second witness (class `embedded-json-path`, a DEFECT reproduced on the real code, patch
-`patches/C15-embedded-json-path.diff`): the unmarshaller promotes the fields of an embedded struct into the enclosing
-object and stores 5, but `keyExist` looks for `Common.page`, does not find it, and the declared default 1 overwrites
-the value the body carries (likewise a `required` promoted field is never enforced). -/
-theorem embedded_default_fails_at :
+/-- regression (former `embedded_default_fails_at`, class `embedded-json-path`, repaired in `/repo` 1242bf1): the
+unmarshaller promotes the fields of an embedded struct into the enclosing object and stores 5, and `keyExist` now looks
+for `page` in that object too (before the repair it looked for `Common.page`, did not find it, and the declared default
+1 overwrote the value the body carries; likewise a `required` promoted field was never enforced). -/
+theorem embedded_default_repaired :
     Spec.Bind.promoted { name := [67], ty := { base := .str } } true = true ∧
-    (bindN embeddedType embeddedReq).1 = .ok [.one (.i 1)] ∧
+    (bindN embeddedType embeddedReq).1 = .ok [.one (.i 5)] ∧
     Spec.Bind.specBindN embeddedType embeddedReq = .ok [.one (.i 5)] := by
   decide
 
